@@ -32,6 +32,11 @@ def gen_wordlist():
 
 def judge(c, m, byid, outs):
     flat = c["flat"]
+    if c["group"] == "alias":
+        if flat.get("unchanged") != "yes":
+            return ("property", "a bip32/bip39 call modified its input (%s): %s -> %s"
+                    % (flat.get("call"), str(flat.get("before"))[:60], str(flat.get("after"))[:60]))
+        return None
     if c["group"] == "commute":
         if flat.get("commutes") != "yes":
             return ("property", "N(CKDpriv(k,i)) differs from CKDpub(N(k),i) for i=%s: %s vs %s"
